@@ -230,13 +230,21 @@ def run_cli(case):
     if case["alpha1"]:
         o["alpha1"] = case["alpha1"]
         o["alpha2"] = case["alpha2"]
+    if case.get("fs_route"):
+        # the documented second way to fix the optics: the synchrotron frequency is given, the momentum compaction factor
+        # is derived from it (a different alpha0 on the command line is overridden; round-6 seed C03f computes the natural
+        # bunch length - the phase scale of the sinusoidal RF - from that ignored option)
+        a0 = gen.f32(case["fs_route"])
+        d0 = cfggen.derive(dict(o, alpha0=a0))
+        o["SynchrotronFrequency"] = gen.f32(d0["fs"])
+        o["alpha0"] = gen.f32(case["decoy_alpha0"])
     if case.get("via_rev"):
         # the documented second way to give the step count: StepsPerRevolution overwrites StepsPerTs (which keeps a decoy)
         d0 = cfggen.derive(o)
         o["StepsPerRevolution"] = float(steps * d0["fs"] / d0["frev"])
         o["StepsPerTs"] = case["decoy"]
     r = cli.run(["-c", "/dev/null", "-o", "r.h5"] + cli.optargs(o), wd)
-    cls = ["cli", "linear" if case["linear"] else "sinus", "it%d" % case["it"], "StepsPerRevolution" if case.get("via_rev") else "StepsPerTs"]
+    cls = ["cli", "linear" if case["linear"] else "sinus", "it%d" % case["it"], "StepsPerRevolution" if case.get("via_rev") else "StepsPerTs"] + (["fs_route"] if case.get("fs_route") else [])
     if r.rc != 0 or "Finished." not in r.out:
         return Outcome(False, True, cls, "run failed: %s %s" % (r.out[-300:], r.err[-300:]), sig="c03:cli:runfail")
     h = cli.H5(os.path.join(wd, "r.h5"))
@@ -269,6 +277,9 @@ def cli_cases(draw):
              sy=float(draw(st.integers(-ms, ms))) if draw(st.booleans()) else 0.0,
              gauss=draw(gaussians(L, n, it, ms)), alpha1=0.0, alpha2=0.0)
     c["via_rev"] = draw(st.integers(0, 2)) == 0
+    if draw(st.integers(0, 2)) == 0:
+        c["fs_route"] = float(10 ** draw(st.floats(-3.3, -2.0)))
+        c["decoy_alpha0"] = draw(st.sampled_from([4e-3, 1e-3, 2e-2, 5e-4]))
     c["decoy"] = draw(st.sampled_from([1000, 50, 333]))
     if draw(st.integers(0, 3)) == 0:
         c["alpha1"] = gen.f32(draw(st.floats(-2e-3, 2e-3)))
